@@ -105,7 +105,11 @@ func (fc *funcCtx) tryInline(st *State, callee *ssa.Function, args []Value) (res
 		return !typeHasPointerLike(t, map[types.Type]bool{})
 	}
 	for i := 0; i < sig.Params().Len(); i++ {
-		if !readOnlyType(sig.Params().At(i).Type()) {
+		pt := sig.Params().At(i).Type()
+		if ptr, isPtr := pt.Underlying().(*types.Pointer); isPtr && isTextBuffer(ptr.Elem()) {
+			continue // a text buffer is a ghost string cell of the caller; writing it touches no heap storage
+		}
+		if !readOnlyType(pt) {
 			return nil, false, false
 		}
 	}
